@@ -5,7 +5,7 @@ CONSTANTS
   Horizon = 0
   MaxNow = 0
   Sched = "any"
-  Weaken = "none"
+  Weakens = {"none"}
   Parts = {"timer"}
   Heights = {0}
   MaxCRound = 1
